@@ -11,9 +11,25 @@ def main():
     ap.add_argument("--replay", default=None)
     a = ap.parse_args()
     if a.pid == "setup":
-        ok, out = lib.coq_make(strict=True)
-        print(out[-3000:])
-        sys.exit(0 if ok else 1)
+        # build everything (make -k: one broken file must not take the whole framework down), then require that the
+        # property file of every registered check compiles; report any other file that failed to build
+        import subprocess, concurrent.futures
+        ok, out = lib.coq_make(strict=False)
+        print(out[-2000:])
+        ready = open(os.path.join(lib.VERIF, "tools", "ready.txt")).read().split()
+        def comp(pid):
+            rc, o = lib.sh("timeout %d coqc -Q . Onsager Properties/%s.v" % (lib.PERFILE_TIMEOUT, pid), cwd=lib.COQDIR)
+            return pid, rc, o
+        bad = []
+        with concurrent.futures.ThreadPoolExecutor(8) as ex:
+            for pid, rc, o in ex.map(comp, ready):
+                if rc != 0:
+                    bad.append(pid); print("[setup] Properties/%s.v FAILED:\n%s" % (pid, o[-800:]))
+        missing = [f for sub in ("Base", "Model", "Proofs") for f in sorted(os.listdir(os.path.join(lib.COQDIR, sub)))
+                   if f.endswith(".v") and not os.path.exists(os.path.join(lib.COQDIR, sub, f[:-2] + ".vo"))]
+        if missing: print("[setup] files that did not build (not needed by a registered check unless listed above):", missing)
+        print("[setup] %d property files compiled, %d failed" % (len(ready) - len(bad), len(bad)))
+        sys.exit(1 if bad else 0)
     mod = importlib.import_module("harness." + a.pid.lower())
     ck = lib.Check(a.pid, a.tier, a.seed, level=getattr(mod, "LEVEL", "proof"))
     if a.replay:
